@@ -7,6 +7,24 @@ from .spec import *
 class Unsupported(Exception): pass
 class ContractDrift(Exception): pass
 
+def loop_signatures(fn):
+    """pre-order list of loop headers of a function (nested function bodies included, as the ordinals are)"""
+    out = []
+    def walk(n):
+        for c in ast.iter_child_nodes(n):
+            if isinstance(c, ast.For): out.append(f"for {ast.unparse(c.target)} in {ast.unparse(c.iter)}")
+            elif isinstance(c, ast.While): out.append(f"while {ast.unparse(c.test)}")
+            walk(c)
+    walk(fn); return out
+_SIGS = None
+def loop_signatures_recorded():
+    global _SIGS
+    if _SIGS is None:
+        import json, os
+        p = os.path.join(os.path.dirname(os.path.dirname(os.path.abspath(__file__))), "contracts", "loop_sigs.json")
+        _SIGS = json.load(open(p)) if os.path.exists(p) else {}
+    return _SIGS
+
 class Obligation:
     def __init__(self, name, kind, hyps, goal, loc=None):
         self.name, self.kind, self.hyps, self.goal, self.loc = name, kind, list(hyps), goal, loc
@@ -61,6 +79,10 @@ class FnExec:
                 walk(c)
         walk(self.fn)
         self.mode = "code"; self.pending_exc = []; self.handlers = []
+        # binding check: loop invariants attach to loops by ordinal, so the loop headers must be the ones the sidecar was written against
+        rec = loop_signatures_recorded().get(f"{self.mod.relpath}::{qual}")
+        if rec is not None and rec != loop_signatures(self.fn):
+            raise ContractDrift(f"{qual}: loop structure changed (recorded {rec}, found {loop_signatures(self.fn)}); invariants cannot be bound")
 
     # ================================================================== obligations
     def oblige(self, name, kind, pc, goal, node=None):
